@@ -191,7 +191,7 @@ prop(
     assumptions=["detection failure probability <= 2/|F| per run is ignored for the 32-bit and 255-bit fields"],
     shards={"quick": 16, "thorough": 16},
     min_evaluations={"quick": 150, "thorough": 1500},
-    must_see=[("deviation_detected", 100), ("step_families_faulted", 20), ("honest_runs_validated_and_opened", 5)],
+    must_see=[("deviation_detected", 100), ("step_families_faulted", 20), ("honest_runs_validated_and_opened", 5), ("lane_attack_detected", 5)],
     watchdog_s={"quick": 1200, "thorough": 7200},
 )
 
@@ -394,4 +394,83 @@ prop(
               ("tuples_aggregate_values", 20000), ("aggregate_rows", 41), ("aggregate_saturated_columns", 1000), ("reshare_ok", 1000),
               ("share_validation_honest_ok", 10), ("known_value_ok", 100), ("convert_all_ones_inputs", 10)],
     watchdog_s={"quick": 1800, "thorough": 10800},
+)
+
+prop(
+    "C14",
+    level="exploration",
+    builds={"quick": ["b1", "b2"], "thorough": ["b1", "b2"]},
+    rule=("ring buffer: every op sequence over {write one unit, take, close} of depth 8 (thorough 9) from every reachable cursor "
+          "origin for 45 (capacity, write size, read size) triples (1-5 units, unit 1-3 bytes, incl. non-power-of-two) plus seeded "
+          "sequences of 40-800 ops on capacities up to 24 units, each in lock-step with a reference VecDeque<u8>; distinct by "
+          "(triple, origin, sequence), non-trivial when it contains a successful write and a non-empty take (seeded: a cursor wrap "
+          "and a full buffer). send buffer: histories of 1-6 writers (sequential or join_all, 1-90 unique-payload messages of "
+          "1/2/3/4/8 bytes) + closer + draining reader on buffers of 1-4 messages, executed on the deterministic poll scheduler "
+          "(exhaustive DFS over ready-queue choices for 2-3 writers, seeded picks incl. spurious polls), on tokio worker threads, on std "
+          "threads, and in build b2 under shuttle (random, PCT depth 3, bounded DFS; writers as async tasks or as threads); an "
+          "execution is distinct by (history, hash of the observed event trace: writer polls/pending/done, closer, reader polls, chunk "
+          "sizes) and non-trivial when at least one writer poll had to wait (order or full buffer). receive buffer: every chunking "
+          "(2^(n-1)) of streams of <= 10 (thorough 12) bytes x message size 1-4 x every order of <= 5 requests (with and without the "
+          "first missing record) x capacity {2,3} x 3 timings (requests first / data first / alternating), plus seeded streams of up to "
+          "48 records with empty chunks, spurious polls and far-ahead requests, plus shuttle schedules of request tasks against a feeder "
+          "task; distinct by the full case tuple"),
+    assumptions=[
+        "messages have one fixed size per buffer and capacity/read size are multiples of it (the configuration the gateway uses); "
+        "read size <= capacity",
+        "each index is written exactly once and the closer closes at index = number of messages; a writer that sends sequentially "
+        "sends its indices in increasing order (otherwise the history itself would be circular)",
+        "the reader keeps polling until the stream ends; requests at the receiver are never dropped or re-issued",
+        "debug assertions are on: operations the ring buffer documents as panicking (write when full/closed, second close) are "
+        "expected to panic and leave the state unchanged",
+        "after the end of the stream only the first missing record is required to fail with EndOfStream; requests further "
+        "ahead may stay pending (not part of the property)",
+        "a history that does not finish on real threads within its wall deadline is never a verdict: it is re-run on the poll "
+        "scheduler and reported as inconclusive if no stall is reproducible there",
+        "shuttle's atomics are sequentially consistent (weaker orderings of the Acquire/AcqRel accesses are not explored)",
+    ],
+    shards={"quick": 8, "thorough": 16},
+    min_evaluations={"quick": 1000000, "thorough": 5000000},
+    must_see=[("ring_triples", 45), ("ring_cursor_wraps", 1000), ("ring_write_rejected_full", 100),
+              ("ring_takes_short_after_close", 100), ("sender_blocked_writer_polls", 10000),
+              ("sender_writes_filling_buffer", 1000), ("sender_short_final_chunks", 100),
+              ("sender_manual_dfs_exhausted_cases", 10), ("sender_thread_histories_completed", 1000),
+              ("sh_executions", 50000), ("sh_recv_executions", 5000),
+              ("recv_stream_shapes", 20), ("recv_overflow_registrations", 1000),
+              ("recv_messages_straddling_chunks", 1000), ("recv_resolved_end_of_stream", 100)],
+)
+
+prop(
+    "C12",
+    level="exploration",
+    rule=("(1) truncation point: grid 12 eps in [0.01,20] x 8 delta in [1e-12,1e-2] x sensitivity {1,2,3,10,100,1000} + 72 constructed exact ties / near ties "
+          "(delta = tail(n) x {1, 1+-1e-6}) + seeded log-uniform points (1200 quick, 30000 thorough); OPRFPaddingDp::new(..).get_shift() vs the smallest n >= sensitivity whose one-sided tail mass of the `sensitivity` "
+          "outermost points is <= delta, computed in closed form in f64 and re-computed with 60 digits by lib/dp_ref.py at check time; a point is "
+          "distinct by (eps, delta, sensitivity) and non-trivial when both references agree and the decision margin is >= 1e-9 (otherwise "
+          "boundary-ambiguous: counted, skipped); (2) scripted RNG: every (attempts1, attempts2) path with up to 2n+2 failures per geometric "
+          "(n <= 60; for larger n the diagonal band |a1-a2| <= n+3 at three depths) through Geometric / DoubleGeometric / "
+          "TruncatedDoubleGeometric / OPRFPaddingDp::sample; distinct by (configuration, path) resp. (configuration, value), non-trivial when "
+          "output and number of consumed trials were both observed; Bernoulli threshold read back by bisection at 3-4 trial positions per "
+          "configuration; (3) ShiftedTruncatedDiscreteLaplace::sample_shares driven to every support point x in 0..2n in both directions at "
+          "widths 8/16/32; distinct by (width, configuration, x); (4) constructor grids (NoiseParams::new 10x8x8 + 25, OPRFPaddingDp::new "
+          "10x14x8, dp_for_histogram epsilon list for Binomial and DiscreteLaplace in a 3-helper world); distinct by parameter tuple, non-trivial "
+          "when the documentation decides the tuple (values exactly on an ambiguously documented bound and NaN/inf are observed only); "
+          "(5) 3-helper in-memory worlds under the paused clock: apply_dp_padding / apply_dp_padding_pass (match-key and breakdown-key "
+          "dummies, semi-honest and malicious contexts, 0/1/5 real rows) and the three Laplace passes + dp_for_histogram on the same world "
+          "seed (widths 8/16/32, 32 and 256 buckets, SS_BITS 0/3); distinct by the case tuple, non-trivial when all three helpers returned Ok "
+          "and every row / bucket was reconstructed and compared"),
+    assumptions=["rand 0.8 Bernoulli draws exactly one u64 v per trial and succeeds iff v < floor(p*2^64) (checked: any other use of the RNG makes the scripted test inconclusive)",
+                 "independence of successive RNG words is C06's subject; the pmf is derived from the observed path->value map under that assumption",
+                 "documented range of a constructor = the conditions in its own doc comment / error texts; a value exactly on a bound that the texts "
+                 "state inconsistently (success_prob 0 and 1, delta = 1.0, epsilon = MAX_EPSILON, sensitivity 0) and non-finite values are observed, not judged",
+                 "the per-pass noise of dp_for_histogram is obtained from a pass-by-pass replica run on the same world seed and gate names; if the world "
+                 "is not reproducible from its seed the comparison is reported as inconclusive",
+                 "the chi-square run on a seeded real RNG is evidence only (alarm at p < 1e-12)"],
+    shards={"quick": 8, "thorough": 16},
+    min_evaluations={"quick": 100000, "thorough": 1000000},
+    must_see=[("truncation_point_equal", 400), ("truncation_classes", 2), ("truncation_origin", 4), ("bernoulli_threshold_read", 100), ("truncated_paths_accepted_exact", 10000),
+              ("truncated_paths_rejected_exact", 1000), ("support_exact", 30), ("pmf_derived_proportional_to_exp_minus_eps_dist", 30),
+              ("share_mapping_widths", 3), ("share_mapping_points_exact", 1000), ("ctor_reject_as_documented", 100),
+              ("ctor_accept_as_documented", 40), ("hist_eps_reject_as_documented", 5), ("hist_eps_accept_as_documented", 2),
+              ("dummy_rows_consistent_and_value_free", 1000), ("padding_shapes", 10), ("noise_shapes", 10),
+              ("buckets_total_equals_exact_plus_three_draws", 500), ("per_pass_noise_negative_seen", 10), ("chi2_runs", 4)],
 )
